@@ -15,7 +15,16 @@ package main
 //             verbatim, FriendlyErrorMessage returns; a compile error's line/column exist.
 //             Impl = Lean posAt/getLineText/renderOk on the error's start/end offsets.
 //   soup    : random lexeme sequences (all number bases, escapes, comments, illegal runes,
-//             lone CR, non-ASCII inside strings) for the lexer model only.
+//             lone CR, non-ASCII runes inside strings, comments, identifiers and after numbers)
+//             for the lexer model only.
+//   gap     : c20gap.go — line comments at the line ends of texts with multi-byte runes before and
+//             inside them: the instances of lex_line_comment_at_line_end / lex_line_comment_after_blanks /
+//             lexPos_line_comment / positions_after_line_comment against the real lexer.
+//
+// NOTHING of /repo's lexer, parser or compiler runs in this process: every call goes to a child
+// worker (re-exec of this binary) with a memory limit, a stack limit and a timeout, so that a
+// lexer or parser that loops, recurses without end, exhausts memory or crashes on an input is
+// OBSERVED — the input is reported — instead of taking the harness down.
 
 import (
 	"bufio"
@@ -23,7 +32,6 @@ import (
 	"encoding/json"
 	"errors"
 	"fmt"
-	"io"
 	"os"
 	"os/exec"
 	"regexp"
@@ -31,6 +39,7 @@ import (
 	"runtime/debug"
 	"sort"
 	"strings"
+	"sync"
 	"time"
 
 	"github.com/risor-io/risor/lexer"
@@ -83,9 +92,9 @@ func c20_lexErrClass(msg string) string {
 	return "other:" + msg
 }
 
-// c20Lex runs the real lexer to the first EOF or error and renders the stream in the
-// oracle's format.
-func c20Lex(src string) (toks []token.Token, repr string, lexErr error) {
+// c20LexLocal runs the real lexer to the first EOF or error and renders the stream in the
+// oracle's format.  WORKER SIDE ONLY (the lexer under test may loop or crash).
+func c20LexLocal(src string) (toks []token.Token, repr string, lexErr error) {
 	defer func() {
 		if r := recover(); r != nil {
 			repr = fmt.Sprintf("PANIC: %v", r)
@@ -115,23 +124,55 @@ func c20Lex(src string) (toks []token.Token, repr string, lexErr error) {
 	return toks, "ok\t" + strings.Join(parts, ";"), lexErr
 }
 
+// c20Lex: the real lexer on src, run in the worker.  The tokens carry type, literal and the
+// full start/end positions.  died != "" when the worker did not answer (the lexer looped,
+// overflowed the stack, exhausted memory or crashed): repr then is "DIED: <why>".
+func c20Lex(src string) (toks []token.Token, repr string, lexErr error) {
+	toks, repr, lexErr, _ = c20LexD(src)
+	return
+}
+
+func c20LexD(src string) (toks []token.Token, repr string, lexErr error, died string) {
+	w, ok := c20Call("lex", src)
+	if !ok {
+		return nil, "DIED: " + c20LastDeath, errors.New("the lexer did not return"), c20LastDeath
+	}
+	for i := range w.TT {
+		toks = append(toks, token.Token{Type: token.Type(w.TT[i]), Literal: w.TL[i],
+			StartPosition: token.Position{Char: w.TP[i][0], Line: w.TP[i][1], Column: w.TP[i][2], LineStart: w.TP[i][3]},
+			EndPosition:   token.Position{Char: w.TP[i][4], Line: w.TP[i][5], Column: w.TP[i][6], LineStart: w.TP[i][7]}})
+	}
+	if w.LexErr != "" {
+		lexErr = errors.New(w.LexErr)
+	}
+	return toks, w.Repr, lexErr, ""
+}
+
 // c20LexCheck compares the real lexer with the Lean lexer model on a batch of sources.
 func c20LexCheck(e *Env, srcs []string, what string) (agree []bool) {
 	reqs := make([]string, len(srcs))
 	gos := make([]string, len(srcs))
 	for i, s := range srcs {
-		_, gos[i], _ = c20Lex(s)
+		var died string
+		_, gos[i], _, died = c20LexD(s)
+		if died != "" {
+			// the model returns a token stream for EVERY text (lexAll is total): a real lexer that
+			// does not return is a violation of the property on this very input, whatever stream
+			// the text belongs to (no token, no diagnostic)
+			e.R.H("lex_corr", "REAL LEXER DID NOT RETURN")
+			c20DeathSpec(e, s, "the real lexer does not return on this text ("+died+") | "+what)
+		}
 		reqs[i] = "C20\tlex\t" + Hex(s)
 	}
 	reps := e.O.AskBatch(reqs)
 	agree = make([]bool, len(srcs))
 	for i := range srcs {
 		switch {
-		case reps[i] == "unsupported":
-			e.R.H("lex_corr", "model-unsupported(non-ASCII outside strings)")
-			agree[i] = false
 		case reps[i] == gos[i]:
 			e.R.H("lex_corr", "agree")
+			if !c20_isASCII(srcs[i]) {
+				e.R.H("lex_corr_nonascii", c20_nonASCIIClass(srcs[i]))
+			}
 			agree[i] = true
 		default:
 			e.R.H("lex_corr", "MISMATCH")
@@ -178,35 +219,124 @@ type c20Wire struct {
 	EChar, ELine, ECol      int
 	SourceCode              string
 	Friendly, FriendlyPanic string
+	// lex
+	Repr, LexErr string
+	TT, TL       []string // token types and literals
+	TP           [][8]int // start Char/Line/Column/LineStart, end Char/Line/Column/LineStart
+	// c01lex / c01real (the expression streams c20nl.go, c20bridge.go) and starts
+	Toks   string
+	NTok   int
+	Err    string
+	Real   string
+	Starts []int
+	Types  []string
 }
 
 type c20Worker struct {
-	cmd *exec.Cmd
-	in  *bufio.Writer
-	out *bufio.Reader
+	cmd  *exec.Cmd
+	in   *bufio.Writer
+	out  *bufio.Reader
+	errb *c20Tail
+}
+
+// c20Tail keeps the first bytes a worker writes to stderr (the Go runtime's "fatal error: …"
+// line of a crash that no recover() can stop)
+type c20Tail struct {
+	mu  sync.Mutex
+	buf []byte
+}
+
+func (t *c20Tail) Write(p []byte) (int, error) {
+	t.mu.Lock()
+	if len(t.buf) < 600 {
+		k := 600 - len(t.buf)
+		if k > len(p) {
+			k = len(p)
+		}
+		t.buf = append(t.buf, p[:k]...)
+	}
+	t.mu.Unlock()
+	return len(p), nil
+}
+
+func (t *c20Tail) First() string {
+	t.mu.Lock()
+	defer t.mu.Unlock()
+	s := string(t.buf)
+	for _, l := range strings.Split(s, "\n") {
+		if strings.HasPrefix(l, "fatal error:") || strings.HasPrefix(l, "runtime:") || strings.HasPrefix(l, "panic:") {
+			if len(l) > 160 {
+				l = l[:160]
+			}
+			return l
+		}
+	}
+	if len(s) > 160 {
+		s = s[:160]
+	}
+	return strings.TrimSpace(s)
 }
 
 var c20W *c20Worker
+
+// why the last worker died, how many died so far
+var c20LastDeath string
+var c20Deaths int
 
 func c20StartWorker() *c20Worker {
 	cmd := exec.Command(os.Args[0], "c20-worker")
 	stdin, _ := cmd.StdinPipe()
 	stdout, _ := cmd.StdoutPipe()
-	cmd.Stderr = io.Discard
-	cmd.Env = append(os.Environ(), "GOMEMLIMIT=1GiB")
+	tail := &c20Tail{}
+	cmd.Stderr = tail
+	cmd.Env = append(os.Environ(), "GOMEMLIMIT=1GiB", "GOTRACEBACK=single")
 	if err := cmd.Start(); err != nil {
 		panic(err)
 	}
-	return &c20Worker{cmd: cmd, in: bufio.NewWriter(stdin), out: bufio.NewReaderSize(stdout, 1<<20)}
+	return &c20Worker{cmd: cmd, in: bufio.NewWriter(stdin), out: bufio.NewReaderSize(stdout, 1<<20), errb: tail}
 }
 
-// c20Call sends one request to the worker; ok=false when it did not answer (killed and restarted).
+// c20Timeout: how long one request may take.  Timing is never a verdict on a result that
+// arrives; a request that gets NO answer within the limit is reported as not returning.
+func c20Timeout(mode string) time.Duration {
+	if mode == "lex" || mode == "starts" || mode == "c01lex" {
+		return 10 * time.Second // the lexer is linear in the text
+	}
+	return 20 * time.Second
+}
+
+// Calls that did not return and were reported as violations.  A change under test that loops on
+// a whole class of inputs would make the run last (number of such inputs) x (timeout): once the
+// calls that did not return have cost c20MaxDeadTime in total (or there are c20MaxViolDeaths of
+// them) the run stops — it has its failing inputs — by a panic with this sentinel, which
+// c20_runC20 recovers.  Crashes that come at once (a stack overflow) cost little: the run goes on.
+type c20AbortRun struct{}
+
+const c20MaxViolDeaths = 400
+const c20MaxDeadTime = 240 * time.Second
+
+var c20ViolDeaths int
+var c20DeadTime time.Duration
+
+// c20DeathSpec records "the real code does not return on this input" as an unlisted violation.
+func c20DeathSpec(e *Env, src, detail string) {
+	e.R.Spec(src, detail, "")
+	c20ViolDeaths++
+	if c20ViolDeaths >= c20MaxViolDeaths || c20DeadTime >= c20MaxDeadTime {
+		e.R.Note("run stopped early: %d calls into the real lexer/parser did not return and were reported as violations (%.0f s spent on calls without an answer)", c20ViolDeaths, c20DeadTime.Seconds())
+		panic(c20AbortRun{})
+	}
+}
+
+// c20Call sends one request to the worker; ok=false when it did not answer (killed and
+// restarted; c20LastDeath says why).
 func c20Call(mode, src string) (w c20Wire, ok bool) {
 	if c20W == nil {
 		c20W = c20StartWorker()
 	}
 	c20W.in.WriteString(mode + "\t" + Hex(src) + "\n")
 	c20W.in.Flush()
+	t0 := time.Now()
 	type res struct {
 		line string
 		err  error
@@ -217,22 +347,44 @@ func c20Call(mode, src string) (w c20Wire, ok bool) {
 		line, err := wk.out.ReadString('\n')
 		ch <- res{line, err}
 	}()
+	why := ""
 	select {
 	case r := <-ch:
 		if r.err == nil && json.Unmarshal([]byte(r.line), &w) == nil {
 			return w, true
 		}
-	case <-time.After(20 * time.Second):
+		why = "the child process ended without an answer"
+	case <-time.After(c20Timeout(mode)):
+		why = fmt.Sprintf("no answer within %v, child process killed", c20Timeout(mode))
 	}
 	wk.cmd.Process.Kill()
-	wk.cmd.Wait()
+	err := wk.cmd.Wait()
+	if ee, isExit := err.(*exec.ExitError); isExit && !strings.HasPrefix(why, "no answer") {
+		switch ee.ExitCode() {
+		case 3:
+			why += ": heap above 500 MB"
+		case 2:
+			why += ": Go runtime fatal error"
+		default:
+			why += fmt.Sprintf(": exit status %d", ee.ExitCode())
+		}
+	}
+	if first := wk.errb.First(); first != "" {
+		why += " [" + first + "]"
+	}
+	c20LastDeath = why
+	c20DeadTime += time.Since(t0)
+	c20Deaths++
 	c20W = nil
-	return w, false
+	return c20Wire{}, false
 }
 
 func init() {
 	childCommands["c20-worker"] = func(args []string) {
 		debug.SetMemoryLimit(1 << 30)
+		// a recursion without end (e.g. Next calling itself without consuming anything) must
+		// die quickly and small, not after filling a gigabyte of stack
+		debug.SetMaxStack(64 << 20)
 		go func() { // a parse that allocates without bound must not take the machine down
 			for {
 				time.Sleep(20 * time.Millisecond)
@@ -266,6 +418,42 @@ func init() {
 					}
 				case "diag":
 					w = c20DiagLocal(src)
+				case "lex":
+					toks, repr, lerr := c20LexLocal(src)
+					w.Repr = repr
+					if lerr != nil {
+						w.LexErr = lerr.Error()
+					}
+					for _, t := range toks {
+						w.TT = append(w.TT, string(t.Type))
+						w.TL = append(w.TL, t.Literal)
+						sp, ep := t.StartPosition, t.EndPosition
+						w.TP = append(w.TP, [8]int{sp.Char, sp.Line, sp.Column, sp.LineStart, ep.Char, ep.Line, ep.Column, ep.LineStart})
+					}
+				case "starts":
+					func() {
+						defer func() {
+							if r := recover(); r != nil {
+								w.Panic = fmt.Sprintf("%v", r)
+							}
+						}()
+						w.Starts, w.Types = c20nlTokenStartsLocal(src)
+					}()
+				case "c01lex":
+					func() {
+						defer func() {
+							if r := recover(); r != nil {
+								w.Err = fmt.Sprintf("PANIC %v", r)
+							}
+						}()
+						toks, n, err := c01parseLex(src)
+						w.Toks, w.NTok = toks, n
+						if err != nil {
+							w.Err = err.Error()
+						}
+					}()
+				case "c01real":
+					w.Real = c01parseReal(src)
 				}
 			}
 			b, _ := json.Marshal(w)
@@ -276,6 +464,31 @@ func init() {
 	}
 }
 
+// c20wLex / c20wReal: c01parseLex / c01parseReal (harness/c01parse.go: the real lexer's tokens in
+// the oracle's encoding; the real parser's tree of a one-expression text) run in the worker.  A
+// worker that does not answer is a violation on this input (these texts are renderings of
+// expression trees, with layout: lexer and parser must return on them).
+func c20wLex(e *Env, src string) (string, int, error) {
+	w, ok := c20Call("c01lex", src)
+	if !ok {
+		c20DeathSpec(e, src, "the real lexer does not return on this expression text ("+c20LastDeath+")")
+		return "", 0, errors.New("the real lexer did not return: " + c20LastDeath)
+	}
+	if w.Err != "" {
+		return "", 0, errors.New(w.Err)
+	}
+	return w.Toks, w.NTok, nil
+}
+
+func c20wReal(e *Env, src string) string {
+	w, ok := c20Call("c01real", src)
+	if !ok {
+		c20DeathSpec(e, src, "the real parser does not return on this expression text ("+c20LastDeath+")")
+		return "fail:the real parser did not return: " + c20LastDeath
+	}
+	return w.Real
+}
+
 func c20Observe(src string, compile bool) (o c20Obs) {
 	mode := "obs1"
 	if compile {
@@ -284,7 +497,7 @@ func c20Observe(src string, compile bool) (o c20Obs) {
 	w, ok := c20Call(mode, src)
 	if !ok {
 		o.Hang = true
-		o.Panic = "the parser/compiler did not return (child process killed)"
+		o.Panic = "the parser/compiler did not return (" + c20LastDeath + ")"
 		return
 	}
 	o.AST, o.Code, o.Panic = w.AST, w.Code, w.Panic
@@ -550,7 +763,122 @@ func c20Apply(src []rune, ins []c20Ins, crlf bool) string {
 	return s
 }
 
-var c20CommentBodies = []string{"", " ", "c", " a b ", "x := 1", "**", " * / ", " /", " // ", " # ", "\"", "'", "`", " é→ ", "if {", "\t"}
+var c20CommentBodies = []string{"", " ", "c", " a b ", "x := 1", "**", " * / ", " /", " // ", " # ", "\"", "'", "`", " é→ ", "if {", "\t",
+	// multi-byte runes: 2, 3 and 4 bytes each, few and many of them (a lexer that mixes up byte
+	// and rune offsets is off by the number of EXTRA bytes before the point it looks at)
+	"é", " café", " Höchstwert für Größe", "→", " 日本語のコメント ", " 😀 ok", "ünï", " λx.x ", " ≤ 10 × 2 ", " ¡ÿ! "}
+
+// non-ASCII identifiers (every rune a letter or digit of Unicode or `_`; 2-, 3- and 4-byte runes;
+// a non-ASCII DIGIT inside), and string contents with multi-byte runes
+var c20UniNames = []string{"é", "größe", "λ", "名前", "x٣", "café_1", "𝑥", "ñ2", "_ß", "Δt", "имя", "aé"}
+var c20UniStrings = []string{"é", "héllo wörld", "→", "日本語", "😀", "a→b", "naïve café", "½ × 2"}
+
+// which kinds of non-ASCII text a source has: s = inside a string literal, c = inside a comment,
+// i = elsewhere (identifiers); from the real token stream would be exact — this is a histogram key
+// only, computed from the text: quotes and comment openers toggle the state
+func c20_nonASCIIClass(src string) string {
+	inS, inC, inB := rune(0), false, false
+	has := map[string]bool{}
+	rs := []rune(src)
+	for i := 0; i < len(rs); i++ {
+		c := rs[i]
+		switch {
+		case inC:
+			if c == '\n' {
+				inC = false
+			}
+		case inB:
+			if c == '*' && i+1 < len(rs) && rs[i+1] == '/' {
+				inB = false
+				i++
+			}
+		case inS != 0:
+			if c == '\\' && inS != '`' {
+				i++
+			} else if c == inS || (c == '\n' && inS != '`') {
+				inS = 0
+			}
+		case c == '"' || c == '\'' || c == '`':
+			inS = c
+		case c == '#' || (c == '/' && i+1 < len(rs) && rs[i+1] == '/'):
+			inC = true
+		case c == '/' && i+1 < len(rs) && rs[i+1] == '*':
+			inB = true
+			i++
+		}
+		if c > 127 {
+			switch {
+			case inC || inB:
+				has["comment"] = true
+			case inS != 0:
+				has["string"] = true
+			default:
+				has["identifier/other"] = true
+			}
+		}
+	}
+	var ks []string
+	for k := range has {
+		ks = append(ks, k)
+	}
+	sort.Strings(ks)
+	return strings.Join(ks, "+")
+}
+
+// c20Uni rewrites a generated program text so that it carries multi-byte runes OUTSIDE comments
+// too: some of the program's own variable/function/parameter names (the generator's names are a
+// prefix and a number: v4, p2, f1, zz0 …) are renamed to non-ASCII identifiers — every occurrence,
+// also inside template strings, so the program still compiles and means the same up to the names —
+// and a statement binding a string with multi-byte runes is put first (before every comment the
+// layout stream will add).  what = histogram key.
+var c20_reGenName = regexp.MustCompile(`\b(?:[a-z]{1,3})[0-9]+\b`)
+
+func c20Uni(r *RNG, src string) (string, string) {
+	mode := r.Intn(10)
+	if mode < 3 {
+		return src, "ascii program"
+	}
+	what := []string{}
+	if mode >= 5 { // rename
+		names := map[string]bool{}
+		for _, m := range c20_reGenName.FindAllString(src, -1) {
+			names[m] = true
+		}
+		var list []string
+		for k := range names {
+			list = append(list, k)
+		}
+		sort.Strings(list)
+		pool := append([]string{}, c20UniNames...)
+		ren := map[string]string{}
+		for _, nm := range list {
+			if len(pool) == 0 || !r.Chance(50) {
+				continue
+			}
+			k := r.Intn(len(pool))
+			ren[nm] = pool[k] + nm[len(nm)-1:] // keep them distinct from one another: pool entries are used once
+			pool = append(pool[:k], pool[k+1:]...)
+		}
+		if len(ren) > 0 {
+			src = c20_reGenName.ReplaceAllStringFunc(src, func(m string) string {
+				if to, ok := ren[m]; ok {
+					return to
+				}
+				return m
+			})
+			what = append(what, "non-ASCII identifiers")
+		}
+	}
+	if mode < 5 || mode >= 7 { // a leading string
+		q := Pick(r, []string{"\"", "'", "`"})
+		src = "zu0 := " + q + Pick(r, c20UniStrings) + q + "\n" + src
+		what = append(what, "leading non-ASCII string")
+	}
+	if len(what) == 0 {
+		return src, "ascii program"
+	}
+	return src, strings.Join(what, " + ")
+}
 
 func c20Blanks(r *RNG) string {
 	n := 1 + r.Intn(3)
@@ -623,6 +951,23 @@ func c20Insertion(r *RNG, g c20Gap, kind string) (c20Ins, bool) {
 			s = c20Blanks(r) + s
 		}
 		return c20Ins{g.Off, s, kind}, true
+	case "commentline": // a line comment on a line of its own, between two statements (or first in the file)
+		if g.Next != string(token.NEWLINE) && g.Prev != "" {
+			return c20Ins{}, false
+		}
+		if g.Prev == "" { // header comment: before the first token
+			s := c20LineComment(r) + "\n"
+			if r.Chance(30) {
+				s += c20LineComment(r) + "\n"
+			}
+			return c20Ins{g.Off, s, kind + ":header"}, true
+		}
+		s := "\n"
+		if r.Bool() {
+			s += c20Blanks(r)
+		}
+		s += c20LineComment(r)
+		return c20Ins{g.Off, s, kind}, true
 	case "blankline":
 		if g.Next != string(token.NEWLINE) {
 			return c20Ins{}, false
@@ -676,7 +1021,7 @@ func c20Insertion(r *RNG, g c20Gap, kind string) (c20Ins, bool) {
 	return c20Ins{}, false
 }
 
-var c20Kinds = []string{"blanks", "blanks", "block", "block", "block-multiline", "comments", "comments", "linecomment", "blankline", "break", "break"}
+var c20Kinds = []string{"blanks", "blanks", "block", "block", "block-multiline", "comments", "comments", "linecomment", "linecomment", "commentline", "blankline", "break", "break"}
 
 // ---------------------------------------------------------------- extra statements (maps, sets, pipes, attributes)
 
@@ -746,8 +1091,7 @@ func c20NonTrivial(p *N) bool {
 
 // ---------------------------------------------------------------- the layout stream
 
-func c20Layout(e *Env, r *RNG, p *N, id string, perGap bool, nMix int) {
-	src := Src(p)
+func c20Layout(e *Env, r *RNG, p *N, src string, id string, perGap bool, nMix int) {
 	base := c20Observe(src, true)
 	if base.PErr != nil || base.Panic != "" {
 		e.R.H("layout_base", "generated program does not parse")
@@ -768,7 +1112,11 @@ func c20Layout(e *Env, r *RNG, p *N, id string, perGap bool, nMix int) {
 		}
 	}
 	nt := c20NonTrivial(p)
-	toks, _, _ := c20Lex(src)
+	toks, _, _, died := c20LexD(src)
+	if died != "" { // it parsed a moment ago: the lexer is not deterministic on this text
+		c20DeathSpec(e, src, "the real lexer does not return on a program that parses ("+died+") | "+id)
+		return
+	}
 	gaps := c20Gaps(toks)
 	runes := []rune(src)
 	for k := range Kinds(p) {
@@ -795,6 +1143,10 @@ func c20Layout(e *Env, r *RNG, p *N, id string, perGap bool, nMix int) {
 				in, _ := c20Insertion(r, g, "break")
 				vs = append(vs, variant{[]c20Ins{in}, false, "single:" + in.Kind})
 			}
+			if g.LineEnd && r.Chance(50) { // line ends on their own: a line comment there
+				in, _ := c20Insertion(r, g, "linecomment")
+				vs = append(vs, variant{[]c20Ins{in}, r.Chance(10), "single:" + in.Kind})
+			}
 		}
 	}
 	vs = append(vs, variant{nil, true, "crlf"})
@@ -802,13 +1154,15 @@ func c20Layout(e *Env, r *RNG, p *N, id string, perGap bool, nMix int) {
 		pct := 10 + r.Intn(80)
 		var ins []c20Ins
 		kinds := c20Kinds
-		switch r.Intn(5) {
+		switch r.Intn(6) {
 		case 0:
 			kinds = []string{"blanks"}
 		case 1:
 			kinds = []string{"block", "block-multiline", "comments"}
 		case 2:
-			kinds = []string{"break", "blankline", "linecomment"}
+			kinds = []string{"break", "blankline", "linecomment", "commentline"}
+		case 3:
+			kinds = []string{"linecomment", "commentline", "linecomment", "blanks"}
 		}
 		for _, g := range gaps {
 			if r.Chance(pct) {
@@ -846,9 +1200,9 @@ func c20Layout(e *Env, r *RNG, p *N, id string, perGap bool, nMix int) {
 		bad := ""
 		switch {
 		case o.Hang:
-			e.R.H("layout_verdict", "parser does not return (C03's subject)")
-			e.R.Note("the real parser did not return on the layout variant %q", vsrc)
-			continue
+			// the original parsed (and compiled): a layout variant of it on which the parser or
+			// compiler no longer returns has changed its meaning as much as a text can
+			bad = "variant: " + o.Panic
 		case o.Panic != "":
 			bad = "variant panics: " + o.Panic
 		case o.PErr != nil:
@@ -866,6 +1220,10 @@ func c20Layout(e *Env, r *RNG, p *N, id string, perGap bool, nMix int) {
 		}
 		e.R.H("layout_verdict", "DIFFERENT")
 		detail := fmt.Sprintf("%s | insertions: %v | original program (%s):\n%s", bad, c20_describeIns(v.ins, v.crlf), id, src)
+		if o.Hang {
+			c20DeathSpec(e, vsrc, detail)
+			continue
+		}
 		e.R.Spec(vsrc, detail, "")
 	}
 }
@@ -1097,8 +1455,7 @@ func c20Diag(e *Env, src string, label string, spec bool, agreeLex bool) {
 	e.R.Spec(src, strings.Join(bad, "; ")+" | error: "+w.Msg+" | "+label, finding)
 }
 
-func c20Mutations(e *Env, r *RNG, p *N, id string, n int) {
-	src := Src(p)
+func c20Mutations(e *Env, r *RNG, p *N, src string, id string, n int) {
 	toks, _, lerr := c20Lex(src)
 	if lerr != nil || len(toks) < 2 {
 		return
@@ -1147,6 +1504,26 @@ func c20Mutations(e *Env, r *RNG, p *N, id string, n int) {
 			srcs = append(srcs, strings.ReplaceAll(ms, "\n", "\r\n"))
 			labels = append(labels, "CRLF twin of: "+labels[len(labels)-1])
 		}
+		// the same faulty text with a line comment (multi-byte text) at the end of one of its
+		// lines: the diagnostic must still name a line and column of THIS text and quote that line
+		// verbatim (the comment included when the error is on the commented line)
+		if strings.Contains(ms, "\n") && r.Chance(30) {
+			rs := []rune(ms)
+			var nls []int
+			for k, c := range rs {
+				if c == '\n' {
+					nls = append(nls, k)
+				}
+			}
+			at := Pick(r, nls)
+			cm := c20LineComment(r)
+			if r.Chance(70) {
+				cm = Pick(r, []string{" # ", "# ", " // ", "//"}) + c20CommentBodies[16+r.Intn(len(c20CommentBodies)-16)]
+			}
+			e.R.H("mutation", "commented twin")
+			srcs = append(srcs, string(rs[:at])+cm+string(rs[at:]))
+			labels = append(labels, fmt.Sprintf("line comment %q before the newline at offset %d of: %s", cm, at, labels[len(labels)-1]))
+		}
 	}
 	agree := c20LexCheck(e, srcs, "mutated program")
 	for i, s := range srcs {
@@ -1166,6 +1543,11 @@ var c20Lexemes = []string{
 	";", "?", "(", ")", ",", ".", "{", "}", "[", "]", "\n", "\r\n", "\r", "~", "@", "$", "^", "\\",
 	"// c", "# c", "/* c */", "/**/", "/*/", "/* a\nb */", "/* open", "/* a */ /* b */", "/* a */ // b", "/* a */# b", "/***/", "/* * / */",
 	"/*/ a */", "/*/*/", "/*//*/", "/* a *//* b */", "/*/**/ /*#*/",
+	// non-ASCII runes outside strings: identifiers over Unicode letters and digits, runes that are
+	// neither (refused), what may and may not follow a number (unicode.IsLetter / IsNumber), and
+	// comments with multi-byte text up to a line end
+	"größe", "λ", "名前", "x٣", "٣", "𝑥", "_ß", "é_1", "ifé", "é.é", "½", "9½", "9٣", "9→", "1.5½", "1.5→", "0x1fé", "07é", "×", "😀", "a😀",
+	"# é→\n", "// café\n", "# 日本語", "/* é */", "/* → */ // ü\n", "\"é\" # é\n", "é # é\n",
 }
 
 func c20Soup(e *Env, r *RNG, n int) {
@@ -1215,6 +1597,31 @@ func c20Directed(e *Env) {
 		e.R.H("directed", "layout pair")
 		if a.PErr != nil || b.PErr != nil || a.AST != b.AST {
 			e.R.Spec(pr[1], fmt.Sprintf("directed layout pair: %q parses to %q (%v), %q parses to %q (%v)", pr[0], a.AST, a.PErr, pr[1], b.AST, b.PErr), "")
+		}
+	}
+	// line comments with multi-byte runes inside them and/or before them (in an identifier, in a
+	// string, in an earlier comment): at a statement's end, inside a multi-line list, on lines of
+	// their own, first in the file, with CRLF
+	for _, pr := range [][2]string{
+		{"x := 1\ny := 2\n", "x := 1 # café\ny := 2\n"},
+		{"x := 1\ny := 2\n", "x := 1 // é\ny := 2\n"},
+		{"x := [\n\t10,\n\t250,\n]\n", "x := [\n\t10, // Höchstwert für Größe\n\t250,\n]\n"},
+		{"s := \"é\"\nx := 1\ny := 2\n", "s := \"é\"\nx := 1 // c\ny := 2\n"},
+		{"s := \"日本語\"\nx := 1\ny := s\n", "s := \"日本語\" # s\nx := 1 # x\ny := s # y\n"},
+		{"größe := 1\nλ := größe + 1\n", "größe := 1 # →\nλ := größe + 1 // 日本語\n"},
+		{"x := 1\ny := 2\n", "# é\nx := 1\n  // →→ 😀\ny := 2\n# ü"},
+		{"f(1,\n2)\n", "f(1, # ¡uno!\n2)\n"},
+		{"x := 1\r\ny := 2\r\n", "x := 1 // naïve\r\ny := 2 # 😀\r\n"},
+		{"m := {\"ä\": 1}\nn := m\n", "m := {\"ä\": 1} // ö\nn := m\n"},
+	} {
+		ag := c20LexCheck(e, []string{pr[0], pr[1]}, "directed")
+		_ = ag
+		a, b := c20Observe(pr[0], true), c20Observe(pr[1], true)
+		e.R.Case(pr[1], false)
+		e.R.H("directed", "line comment with/after multi-byte runes")
+		if a.PErr != nil || b.PErr != nil || a.Panic != "" || b.Panic != "" || a.AST != b.AST || a.Code != b.Code {
+			e.R.Spec(pr[1], fmt.Sprintf("a line comment changes the program: %q parses to %q (%v %s), %q parses to %q (%v %s)%s", pr[0], a.AST, a.PErr, a.Panic, pr[1], b.AST, b.PErr, b.Panic,
+				map[bool]string{true: "; the bytecode differs", false: ""}[a.AST == b.AST && a.Code != b.Code]), "")
 		}
 	}
 	c20LexCheck(e, []string{pairs[0][1], pairs[2][1], pairs[3][1]}, "directed")
@@ -1285,6 +1692,11 @@ func c20_runC20(e *Env) {
 			c20W.cmd.Process.Kill()
 			c20W.cmd.Wait()
 		}
+		if r := recover(); r != nil {
+			if _, ok := r.(c20AbortRun); !ok {
+				panic(r)
+			}
+		}
 	}()
 	c20Directed(e)
 	rng := e.Rng.Fork()
@@ -1297,15 +1709,19 @@ func c20_runC20(e *Env) {
 		r := rng.Fork()
 		p := gen(r, i)
 		id := fmt.Sprintf("gen#%d", i)
-		c20Layout(e, r, p, id, true, 6)
-		c20Mutations(e, r, p, id, nMut)
+		src, uni := c20Uni(r, Src(p))
+		e.R.H("program_text", uni)
+		c20Layout(e, r, p, src, id+" ("+uni+")", true, 6)
+		c20Mutations(e, r, p, src, id, nMut)
 	}
 	for i := 0; i < nMixProg; i++ { // more programs, mixes only
 		r := rng.Fork()
 		p := gen(r, i)
 		id := fmt.Sprintf("mix#%d", i)
-		c20Layout(e, r, p, id, false, 4)
-		c20Mutations(e, r, p, id, 6)
+		src, uni := c20Uni(r, Src(p))
+		e.R.H("program_text", uni)
+		c20Layout(e, r, p, src, id+" ("+uni+")", false, 4)
+		c20Mutations(e, r, p, src, id, 6)
 	}
 	c20Soup(e, rng.Fork(), nSoup)
 	// parser-level newline invariance on expression trees x layouts (c20nl.go; its own fork of
@@ -1313,4 +1729,7 @@ func c20_runC20(e *Env) {
 	c20ParseNL(e, e.Rng.Fork())
 	// the lexer/parser bridge (c20bridge.go; again its own fork, taken after everything else)
 	c20Bridge(e, e.Rng.Fork())
+	// line comments at line ends of texts with multi-byte runes, with positions (c20gap.go; its own
+	// fork, taken last)
+	c20GapStream(e, e.Rng.Fork())
 }
